@@ -53,6 +53,12 @@ fn main() {
             let defs = tvv::all_props();
             std::process::exit(engine::replay_file(&defs, &PathBuf::from(&args[2]), &verif_root));
         }
+        "fuzz-replay" => {
+            if args.len() < 4 {
+                usage();
+            }
+            std::process::exit(tvv::fuzzing::replay(&args[2], &PathBuf::from(&args[3])));
+        }
         "child" => {
             std::process::exit(tvv::props::child_main(&args[2..]));
         }
